@@ -118,6 +118,21 @@ def run(tier, seed):
         if math.isfinite(mis) and not all(math.isfinite(g) for g in grad):
             violations.append(Violation(f"gradient-not-finite-{'3D' if c['three'] else '2D'}", f"{desc}: misfit {mis} is finite but gradient is {grad}", {"case": c}))
             continue
+        # the misfit is a quadratic in every origin time, wherever the hypocentres are (also exactly at a station, where it has a kink
+        # in the coordinates): the central difference over a dyadic step is its derivative up to rounding
+        per_ = 4 if c["three"] else 3
+        if math.isfinite(mis):
+            for e in range(c["ne"]):
+                k = e * per_ + per_ - 1
+                xp, xm = xa.copy(), xa.copy()
+                xp[k, 0] += 0.5
+                xm[k, 0] -= 0.5
+                with numpy.errstate(all="ignore"):
+                    dT = float(obj.misfit(xp)) - float(obj.misfit(xm))
+                if math.isfinite(dT) and abs(dT - grad[k]) > 1e-8 * (abs(dT) + abs(grad[k]) + 1.0):
+                    violations.append(Violation("origin-time-derivative", f"{desc} at {x}: d misfit / d T of event {e} is {dT} (central difference of a quadratic), "
+                                                f"gradient component {k} is {grad[k]}", {"case": c}))
+                    break
         if not c["coincident"]:     # the model divides by the distance; at distance 0 only the statement itself is checked
             ev, vv, stations, obs_t, sds_t = terms(c, x)
             b = "true" if c["three"] else "false"
